@@ -883,7 +883,7 @@ def _run_harness(idx):
             acc.degrade("harness %s could not be built (%s: %s)" % (name, type(e).__name__, str(e)[:80]))
         return acc
     # choose what is affordable: cost of a plan ~ executions x points; executions ~ P (bound 1) or P^2/2 (bound 2)
-    budget = 24_000 if tier == "quick" else 2_500_000
+    budget = 24_000 if tier == "quick" else 400_000
     plans = []
     for opcodes in (True, False):
         try:
@@ -903,7 +903,7 @@ def _run_harness(idx):
         plans = [(1, False, max(50, budget // max(1, P)))]
     for bound, opcodes, max_runs in plans:
         try:
-            r = sched.explore(make, files, bound, opcodes, check, max_runs)
+            r = sched.explore(make, files, bound, opcodes, check, max_runs, max_seconds=(40 if tier == "quick" else 300))
         except sched.ReplayDivergence as e:
             acc.degrade("harness %s (%s granularity): schedule replay diverged (%s) - harness fault, not counted" % (name, "opcode" if opcodes else "line", str(e)[:100]))
             continue
